@@ -420,6 +420,12 @@ func (txr *TxReplicator) fetchNextTx() error {
 
 	txr.maybeUpdateReplicationLag(commitState.TxId, emd)
 
+	if errors.Is(err, io.EOF) && len(etx) > 0 {
+		// the stream ended in the middle of a message: what was received is not a transaction,
+		// it will be requested again once reconnected
+		return io.ErrUnexpectedEOF
+	}
+
 	if err != nil && !errors.Is(err, io.EOF) {
 		if strings.Contains(err.Error(), database.ErrNoNewTransactions.Error()) {
 			txr.metrics.replicationLag.Set(0)
